@@ -151,6 +151,9 @@ func NewChain(net *Net, rng *rand.Rand) *Chain {
 		c.GenesisSC = c.GenesisSC.Add(v).Add(v)
 	}
 	sfParts := []uint64{1, 999, 1000, 3000, 5000}
+	if net.SFParts != nil {
+		sfParts = net.SFParts
+	}
 	for i, v := range sfParts {
 		var l *Lock
 		if i == 2 {
